@@ -397,7 +397,7 @@ def run_pair(cell: dict[str, Any], mask: list[bool], base: dict[str, Any] | None
 
 # ---------------------------------------------------------------------------------------------
 # cause attribution for the two asymmetries that exist on the pinned tree (see Props/C13.lean,
-# `crowding_order_not_symmetric`, `nsga3_shift_not_symmetric`).  The patches are applied by the
+# `crowding_order_not_symmetric`; the NSGA-III one is the repair of F-C13-2, now in /repo, kept for replays of old witnesses).  The patches are applied by the
 # harness to the live modules (never to /repo) in BOTH runs of a pair; if the pair then agrees, the
 # divergence is attributed to exactly that site.
 # ---------------------------------------------------------------------------------------------
@@ -407,6 +407,10 @@ import contextlib
 
 @contextlib.contextmanager
 def attribution_patch(kind: str):
+    """Neutralise a (formerly) asymmetric site from the harness, in both runs of a pair.  Since the repairs of F-C13-1
+    (NSGA-II: the code itself now sorts by (-distance, number), which is what the nsga2 patch below installs) and F-C13-2
+    no check uses it any more (`c13.KNOWN_SITES` is empty); it is kept for `./check C13 --replay` of old witnesses that
+    carry `under_patch`."""
     import numpy as np
     from optuna.samplers.nsgaii import _elite_population_selection_strategy as e2
     from optuna.samplers._nsgaiii import _elite_population_selection_strategy as e3
